@@ -533,11 +533,19 @@ impl Machine {
         new_vm.global_vals = self.global_vals.clone();
         new_vm.arrays = self.arrays.clone();
 
+        let old_skeleton = self
+            .prog
+            .get_dsp_state_skeleton()
+            .cloned()
+            .expect("dsp function not found");
+        // The state storage is sized when dsp first runs: before that (a swap ahead of
+        // the first sample) it is still empty, which stands for an all-zero state.
+        let mut old_state = self.global_states.rawdata.clone();
+        if old_state.len() < old_skeleton.total_size() as usize {
+            old_state.resize(old_skeleton.total_size() as usize, 0);
+        }
         let patch_plan = state_tree::build_state_storage_patch_plan(
-            self.prog
-                .get_dsp_state_skeleton()
-                .cloned()
-                .expect("dsp function not found"),
+            old_skeleton,
             new_vm
                 .prog
                 .get_dsp_state_skeleton()
@@ -546,10 +554,10 @@ impl Machine {
         );
         if let Some(plan) = patch_plan {
             new_vm.global_states.rawdata =
-                state_tree::apply_state_storage_patch_plan(&self.global_states.rawdata, &plan);
+                state_tree::apply_state_storage_patch_plan(&old_state, &plan);
         } else {
             log::info!("No state structure change detected. Just copies buffer");
-            new_vm.global_states.rawdata = self.global_states.rawdata.clone();
+            new_vm.global_states.rawdata = old_state;
         }
         new_vm.link_functions();
         new_vm.execute_main();
